@@ -220,6 +220,11 @@ where
     D: Fn(&mut Stats, usize) + Sync,
 {
     let next = AtomicUsize::new(0);
+    // MLX_SHARD=i/n: this process only executes jobs with index % n == i (slow monitors shard across processes)
+    let shard: Option<(usize, usize)> = std::env::var("MLX_SHARD").ok().and_then(|s| {
+        let (a, b) = s.split_once('/')?;
+        Some((a.parse().ok()?, b.parse().ok()?))
+    });
     let nthreads = threads().min(jobs.len().max(1));
     let mut total = Stats::default();
     let results: Vec<Stats> = std::thread::scope(|s| {
@@ -234,6 +239,11 @@ where
                             let i = next.fetch_add(1, Ordering::Relaxed);
                             if i >= jobs.len() {
                                 break;
+                            }
+                            if let Some((x, n)) = shard {
+                                if i % n != x {
+                                    continue;
+                                }
                             }
                             {
                                 let st_ref = &mut st;
